@@ -2072,6 +2072,7 @@ def correspond(run: Run) -> None:
                 run.disagree(Disagreement({'version': v, 'source': s}, back, None, s, what='source-roundtrip',
                                           site='XPathToken.source of a sequence type'))
     expected_pass(run)
+    kw_pass(run)
     keyword_prefix_pass(run)
     options_pass(run, cases)
     alternatives_pass(run)
@@ -2245,6 +2246,200 @@ def options_pass(run: Run, cases: list) -> None:
                                           what='constructor-option-invariance', site='parser options read by nud/led'))
 
 
+# ------------------------------------------------- keyword ExprSingle layer (phase 5): if / for / let / some / every
+KW_TEXT = {2: 'then', 3: 'else', 4: 'return', 5: 'in', 6: 'satisfies', 7: ':=', 8: 'if', 9: 'for', 10: 'let', 11: 'some', 12: 'every'}
+KW_BINDERS = {'for': 9, 'let': 10, 'some': 11, 'every': 12}
+
+
+def kw_sep(q: int) -> int:
+    return 7 if q == 10 else 5
+
+
+def kw_fin(q: int) -> int:
+    return 6 if q in (11, 12) else 4
+
+
+def dump_kw(tok) -> str:
+    """`dump` extended by the keyword nodes of EPV/Model/PrattKw.lean (`(I c a b)`, `(Q<q> v r b)`) on top of `,`"""
+    s, n = tok.symbol, len(tok)
+    if s == ',' and n == 2:
+        return f'(B, {dump_kw(tok[0])} {dump_kw(tok[1])})'
+    if s == 'if' and n == 3:
+        return f'(I {dump_kw(tok[0])} {dump_kw(tok[1])} {dump_kw(tok[2])})'
+    if s in KW_BINDERS and n == 3:
+        return f'(Q{KW_BINDERS[s]} {dump(tok[0])} {dump_kw(tok[1])} {dump_kw(tok[2])})'
+    return dump(tok)
+
+
+def kw_render(rows, toks) -> str:
+    return ' '.join(KW_TEXT[t[1]] if t[0] == 'k' else (ty_text(t[1]) if t[0] == 't' else tok_text(rows, t)) for t in toks)
+
+
+def kw_leaf(rng, V: VInfo, size: int) -> list:
+    """tokens of an operator-fragment expression with operands name/integer/variable(ids 1..7)/string"""
+    def simple(t):
+        if t is None:
+            return None
+        if t[0] == 'a':
+            return t if t[1] <= 3 or t[1] == 6 else ('a', 0, 1 + t[2] % 7)
+        return tuple(simple(x) if isinstance(x, tuple) else x for x in t)
+    for _ in range(5):
+        toks = unparse(rng, V, simple(gen_tree(rng, V, size)), rng.choice([0, 0, 0.2]))
+        if out_of_fragment(V, toks) is None:
+            return toks
+    return [('a', 0, 1)]
+
+
+def kw_gen(rng, V: VInfo, depth: int, st, single: bool = True) -> list:
+    """tokens of a random Expr / ExprSingle of the keyword layer; binder variables are `$v50…` (never in a range
+    expression: the XPST0008 check of the nuds is outside the model)"""
+    r = rng.random()
+    lp = ('o', V.idx['('])
+    if not single and r < 0.3:
+        st.count('kw-node:comma')
+        return kw_gen(rng, V, depth, st, False) + [('o', V.idx[','])] + kw_gen(rng, V, depth - 1, st, True)
+    if depth <= 0 or r < 0.35:
+        st.count('kw-node:leaf')
+        return kw_leaf(rng, V, rng.choice([0, 0, 1, 1, 2, 3, 4]))
+    if r < 0.65:
+        st.count('kw-node:if')
+        # condition: an ExprSingle, or an Expr with a top-level comma (F04p)
+        cond = kw_gen(rng, V, depth - 1, st, rng.random() < 0.85)
+        return [('k', 8), lp] + cond + [('c', 0), ('k', 2)] + kw_gen(rng, V, depth - 1, st) + [('k', 3)] + kw_gen(rng, V, depth - 1, st)
+    q = rng.choice([9, 9, 11, 12] + ([10, 10] if base_of(V.ver) >= '30' else []))
+    st.count('kw-node:' + KW_TEXT[q])
+    var = [('a', 2, rng.randrange(50, 60))]
+    if rng.random() < 0.06:       # F04q: the "variable" continues with an operator
+        var += [('o', V.idx['+']), ('a', 1, 1)] if rng.random() < 0.5 else [('o', V.idx['[']), ('a', 1, 1), ('c', 1)]
+    return [('k', q)] + var + [('k', kw_sep(q))] + kw_gen(rng, V, depth - 1, st) + [('k', kw_fin(q))] + kw_gen(rng, V, depth - 1, st)
+
+
+def kw_mutate(rng, V: VInfo, toks: list):
+    toks = list(toks)
+    i = rng.randrange(len(toks))
+    r = rng.random()
+    if r < 0.4 and len(toks) > 1:
+        del toks[i]
+    elif r < 0.7:
+        toks[i] = ('k', rng.choice([2, 3, 4, 5, 6, 7])) if toks[i][0] == 'k' else rng.choice([('c', 0), ('o', V.idx[',']), ('a', 0, 2)])
+    else:
+        j = rng.randrange(len(toks))
+        toks[i], toks[j] = toks[j], toks[i]
+    # a type token stays behind its typed operator
+    for k, t in enumerate(toks):
+        typed_before = k > 0 and toks[k - 1][0] == 'o' and toks[k - 1][1] in V.typed
+        if (t[0] == 't') != typed_before:
+            return None
+    return toks
+
+
+KW_CORPUS = [
+    'if ( n1 ) then n2 else n3', 'if ( n1 ) then n2 else n3 , n4', 'n1 , if ( n1 ) then n2 else n3',
+    'if ( n1 , n2 ) then n3 else n4', 'if ( n1 ) then n2 else n3 or n4', 'if ( n1 ) then n2', 'if ( ) then n1 else n2',
+    'if ( n1 ) then n2 , n3 else n4', 'if ( if ( n1 ) then n2 else n3 ) then n2 else if ( n4 ) then n5 else n6',
+    'for $v50 in n1 return n2', 'for $v50 in n1 return n2 , n3', 'for $v50 + 1 in n1 return n2', 'for $v50 in n1 satisfies n2',
+    'some $v50 in n1 satisfies n2 = n3', 'every $v50 in n1 satisfies n2', 'some $v50 in n1 return n2',
+    'for $v50 in if ( n1 ) then n2 else n3 return for $v51 in n1 return n2', 'for $v50 in n1 , $v51 in n2 return n3',
+    'n1 + if ( n1 ) then n2 else n3', '( if ( n1 ) then n2 else n3 )', 'for $v50 in n1 return', 'if ( n1 ) else n2 then n3',
+]
+KW_CORPUS30 = ['let $v50 := n1 return n2', 'let $v50 := n1 return $v50 + 1 , n3', 'let $v50 in n1 return n2',
+               'let $v50 := if ( n1 ) then n2 else n3 return some $v51 in n1 satisfies n2']
+
+
+def kw_lex(V: VInfo, src: str) -> list:
+    out = []
+    inv = {v: k for k, v in KW_TEXT.items()}
+    for w in src.split(' '):
+        if w in inv:
+            out.append(('k', inv[w]))
+        elif w in (')', ']'):
+            out.append(('c', 0 if w == ')' else 1))
+        elif w in V.idx:
+            out.append(('o', V.idx[w]))
+        elif w[0] == '$':
+            out.append(('a', 2, int(w[2:])))
+        elif w[0] == 'n':
+            out.append(('a', 0, int(w[1:])))
+        else:
+            out.append(('a', 1, int(w)))
+    return out
+
+
+def kw_cases(run: Run, st) -> list:
+    tabs = tables()
+    rng = run.rng
+    vers = ['20', '30', '31', '20c'] if run.quick else ['20', '30', '31', '20c', '30c', '31c']
+    cases = []
+    for v in vers:
+        V = VInfo(v, tabs[v])
+        for s in KW_CORPUS + (KW_CORPUS30 if base_of(v) >= '30' else []):
+            cases.append((v, kw_lex(V, s), 'kw-corpus'))
+    n = run.scale(1500, 15000)
+    while len(cases) < n:
+        v = rng.choice(vers)
+        V = VInfo(v, tabs[v])
+        toks = kw_gen(rng, V, rng.choice([1, 1, 2, 2, 3]), st, single=False)
+        origin = 'kw-gen'
+        if rng.random() < 0.2:
+            toks = kw_mutate(rng, V, toks)
+            origin = 'kw-mutated'
+            if toks is None or out_of_fragment(V, toks) is not None:
+                st.count('kw-skip:mutant-outside-the-operator-fragment')
+                continue
+        if not any(t[0] == 'k' for t in toks) and rng.random() < 0.8:
+            continue
+        cases.append((v, toks, origin))
+    return cases
+
+
+def kw_pass(run: Run) -> None:
+    """keyword ExprSingle layer: real parser vs `EPV.Kw.xparse` (generated table) vs `EPV.Kw.xebnfParse` (W3C levels)"""
+    import re
+    tabs = tables()
+    st = run.stats
+    cases = kw_cases(run, st)
+    lines = [f'V={VNUM[v]} KW=1 T=' + ','.join(f'k{t[1]}' if t[0] == 'k' else tok_str(t) for t in toks) for v, toks, _ in cases]
+    answers = run.driver('C04', lines)
+    for (ver, toks, origin), line, ans in zip(cases, lines, answers):
+        rows = tabs[ver]
+        src = kw_render(rows, toks)
+        case = {'version': ver, 'source': src, 'line': line, 'layer': 'keyword'}
+        m = re.match(r'model=(.*) spec=(.*) trig=(\S+) kwop=(\d) rel=(\d)$', ans)
+        if not m:
+            run.disagree(Disagreement(case, 'driver:' + ans, what='protocol'))
+            continue
+        model, spec = lean_tree(m.group(1)), lean_tree(m.group(2))
+        trig = [] if m.group(3) == '-' else m.group(3).split(',')
+        impl, tok = impl_parse(ver, src)
+        if tok is not None:
+            try:
+                impl = dump_kw(tok)
+            except Exception as e:
+                impl = f'ERR:OTHER:dump:{type(e).__name__}'
+        st.case(line, nontrivial=sum(1 for t in toks if t[0] == 'k') >= 3)
+        st.count(f'{origin}:v{ver}')
+        ci, cm, cs = canon(impl), canon(model), canon(spec)
+        if model == 'ERR:unmodelled':
+            st.count('kw-skip:unmodelled(keyword-as-name / second binding clause)')
+            continue
+        if m.group(4) == '1' and cm == 'ERR' and ci != 'ERR':
+            st.count('kw-skip:keyword-form-under-an-operator-or-bracket')
+            continue
+        st.count('kw-impl:' + ('error' if ci == 'ERR' else ('other:' + ci if is_err(ci) else 'tree')))
+        st.count('kw-spec:' + ('error' if cs == 'ERR' else 'tree'))
+        for f in trig:
+            st.count('kw-trigger:' + f)
+        if m.group(5) != '1':
+            run.disagree(Disagreement(case, ci, cm, cs, what='kw-model-or-reference-inconsistent-with-theorems'))
+        if ci != cs:
+            run.disagree(Disagreement(case, ci, cm, cs, what='kw-tree-vs-ebnf', site='nud__if_expression / nud__for_expression / '
+                                      'nud__quantified_expressions / nud__let_expression', tags=trig))
+        elif ci != cm:
+            run.disagree(Disagreement(case, ci, cm, cs, what='kw-model', site='keyword nuds'))
+        if tok is not None and ci == cm:
+            roundtrip(run, ver, src, tok, dump(tok))
+
+
 def body(run: Run) -> int:
     info = translate(run)
     run.stats.extra['tables'] = info
@@ -2258,7 +2453,7 @@ def body(run: Run) -> int:
     run.assumptions += ['operands are abstract: which primary expressions may occur as path steps or call targets is outside the level table',
                         'types are opaque tokens base x occurrence indicator; xgc:occurrence-indicators is the Lean normalisation absorbOcc',
                         'observation is the syntactic phase tdop.Parser.parse; static evaluation in XPath1Parser.parse is not part of C04']
-    run.prove(['EPV.Props.C04', 'EPV.Props.C04Tables'], ['EPV.Lemmas.PrattTables', 'EPV.Lemmas.PrattComplete', 'EPV.Model.PrattLexer', 'EPV.Lemmas.PrattSource', 'EPV.Lemmas.PrattSourceAll', 'EPV.Lemmas.PrattEbnfComplete'])
+    run.prove(['EPV.Props.C04', 'EPV.Props.C04Tables', 'EPV.Props.C04Kw'], ['EPV.Spec.EBNFKw', 'EPV.Lemmas.PrattTables', 'EPV.Lemmas.PrattComplete', 'EPV.Model.PrattLexer', 'EPV.Lemmas.PrattSource', 'EPV.Lemmas.PrattSourceAll', 'EPV.Lemmas.PrattEbnfComplete'])
     try:
         correspond(run)
     except DriverError as e:
